@@ -28,6 +28,7 @@ def run(ctx):
             npop += sync.aba(ctx, fn)
             natom += sync.check_then_act(ctx, fn)
     npush = sync.aba_push_tags(ctx, fns)
+    sync.load_modify_store(ctx, fns)
     ctx.instance("R-ABA.cas_sites", ncas)
     ctx.instance("R-ABA.cas_pops", npop)
     ctx.instance("R-ABA.push.sites", npush)
